@@ -942,7 +942,7 @@ Section FCASE.
                  (f_kills k) o_fpf o_re o_pf o_parse o_tmpl (f_ctx k) (f_chain k) (f_in k).
   Definition f_mismatch : bool :=
     negb (obs_eqb float PrimFloat.eqb f_model_obs (f_obs k)) ||
-    match f_obs k with ObsErr ECrash => false | _ => negb (Bool.eqb f_model_cancel (f_cancel k)) end.
+    match f_obs k with ObsErr _ ECrash => false | _ => negb (Bool.eqb f_model_cancel (f_cancel k)) end.
   Definition f_spec_code : Z :=
     spec_code float 0%float 1%float PrimFloat.add PrimFloat.div PrimFloat.ltb PrimFloat.leb PrimFloat.eqb fofZ
               o_fpf o_re o_pf o_parse o_tmpl (f_ctx k) (f_chain k) (f_in k) (f_obs k).
